@@ -180,6 +180,14 @@ def families(tier):
             for s in corpus.shapes(tier)]
     fams.append(conc_family('existing/put+put', True, lambda: [
         c06.put(1, 1, 'int'), c06.put(2, 2, 'int')], {0: 1, 1: 2}))
+    # the consumer carries the uuid of the provider it allocates from
+    from engine.scenario import U
+    fams += [corpus.make_family(s, [asserts.generations, asserts.no_5xx],
+                                prefix='consumer-uuid=provider-uuid/',
+                                alias={1: U(1)})
+             for s in corpus.shapes(tier)
+             if s.name in ('alloc-put', 'alloc-post-2c', 'reshape-move',
+                           'alloc-put-empty')]
     fams.append(read_after_write_family())
     from checks import c05
     fams.append(conc_family('existing/put+put_invs/retry=1', True, lambda: [
